@@ -85,7 +85,8 @@ def draw_stream_cfg(rng, frag, sources=('rec',), max_elems=8, terminals=('comple
             'source': rng.choice(sources), 'handler_delay': draw_wait(rng, timed)}
 
 
-def draw_config(rng, links_allowed=('bytes', 'messages'), frags=(None, 64, 65, 70, 100, 1024), timed=True):
+def draw_config(rng, links_allowed=('bytes', 'bytes', 'bytes', 'messages', 'messages', 'ws'),
+                frags=(None, 64, 65, 70, 100, 1024), timed=True):
     link = rng.choice(links_allowed)
     cfg = {'link': link,
            'frag_c': rng.choice(frags), 'frag_s': rng.choice(frags),
